@@ -364,6 +364,23 @@ func runC14(c *core.Ctx, drv string, idx int) {
 				v := map[string]proto.Val{"n": proto.Int(7), "b": proto.Int(1 << 40), "f": proto.Bool(true)}[col]
 				fwFail = &failStmt{cause: "update-fixed-width-overflow", k: kth, n: nrows,
 					st: &proto.Stmt{Kind: "update", Table: "fw", Sets: []proto.SetItem{{Col: col, Val: v}}}}
+				if r.Bool() {
+					// assignments to columns the table does not have (mkdb
+					// ignores them), as many as make the SET list as long as
+					// the table is wide - or the same assignment repeated
+					for x := 1; x < len(t.Cols); x++ {
+						it := proto.SetItem{Col: fmt.Sprintf("nosuch%d", x), Val: proto.Int(int64(x))}
+						if r.Chance(1, 3) {
+							it = fwFail.st.Sets[0]
+						}
+						fwFail.st.Sets = append(fwFail.st.Sets, it)
+					}
+					if r.Bool() {
+						// the real assignment last
+						n := len(fwFail.st.Sets)
+						fwFail.st.Sets[0], fwFail.st.Sets[n-1] = fwFail.st.Sets[n-1], fwFail.st.Sets[0]
+					}
+				}
 			}
 		}
 	}
